@@ -109,6 +109,8 @@ def run(chk):
         expect({"op": "pc_table", "rows": jrows}, lambda d=df: float(st.pc(d)), "pc[table]", meta, nt)
         expect({"op": "pc_joint", "rows": jrows, "sep": "_"}, lambda d=df, w=w: float(st.pc_joint(d, cols[:w])),
                "pc_joint" + ("[missing-cell]" if has_missing else ""), meta, nt)
+        expect({"op": "pc_joint", "rows": jrows, "sep": "|"}, lambda d=df, w=w: float(st.pc_joint(d, cols[:w], gap_token="|")),
+               "pc_joint[gap_token]", meta, nt)
         if w >= 2:
             sub = [r[:2] for r in jrows]
             expect({"op": "pc_joint", "rows": sub, "sep": "_"}, lambda d=df: float(st.pc_joint(d, cols[:2])),
@@ -123,6 +125,15 @@ def run(chk):
         expect({"op": "pc_joint", "rows": jrows, "rows2": jrows2, "sep": "_"},
                lambda d=df, e=df2, w=w: float(st.pc_joint(d, cols[:w], e)), "pc_joint2" + ("[missing-cell]" if hm2 else ""),
                {"rows": jrows, "rows2": jrows2}, True)
+    # numeric cells: the cell text is str(value)
+    for _ in range(10):
+        n = rng.randint(2, 8)
+        a = [rng.choice([1, 2, 11]) for _ in range(n)]
+        b = [rng.choice([1.5, 2.0, 12.25]) for _ in range(n)]
+        dfn = pd.DataFrame({"c1": a, "c2": b})
+        jrows = [[str(x), str(y)] for x, y in zip(dfn["c1"], dfn["c2"])]
+        expect({"op": "pc_table", "rows": jrows}, lambda d=dfn: float(st.pc(d)), "pc[table-numeric]", {"rows": jrows}, True)
+        expect({"op": "pc_joint", "rows": jrows, "sep": "_"}, lambda d=dfn: float(st.pc_joint(d, ["c1", "c2"])), "pc_joint[numeric]", {"rows": jrows}, True)
     # legacy (alpha, beta) tuple input becomes a two-column table
     for _ in range(10):
         n = rng.randint(2, 8)
